@@ -467,6 +467,7 @@ fn ref_frame(input: &[u8], pkt: usize) -> RefStep {
 
 const SIG_NAT: &str = "ext-nat-type-truncated-to-u8";
 const SIG_EMPTY: &str = "empty-payload-accepted";
+const SIG_WRONG_TYPE_KIND: &str = "forbidden-frame-type-reported-as-frame-encoding";
 
 #[derive(Debug, Clone, Serialize, Deserialize)]
 struct BytesCase {
@@ -543,8 +544,23 @@ fn payload_in(bytes: &[u8], pkt: usize, known: &mut Vec<Fail>) -> Result<Payload
                 }
                 // error mapping (what read_plain_packet returns to the connection)
                 let q = guarded(|| Ok(QuicError::from(e.clone())))?;
-                let want_kind = if e == FrameError::NoFrames { ErrorKind::ProtocolViolation } else { ErrorKind::FrameEncoding };
-                ensure_eq!(q.kind(), want_kind, "error-kind", "{e:?} maps to");
+                // RFC 9000 §12.4: no frames, or a frame in a packet type that does not permit it, is a
+                // PROTOCOL_VIOLATION; every other decoding failure is a FRAME_ENCODING_ERROR
+                let want_kind = if matches!(e, FrameError::NoFrames | FrameError::WrongType(..)) {
+                    ErrorKind::ProtocolViolation
+                } else {
+                    ErrorKind::FrameEncoding
+                };
+                if matches!(e, FrameError::WrongType(..)) && q.kind() == ErrorKind::FrameEncoding {
+                    // genuine deviation kept by an existing unit test (test_error_conversion_to_transport_error):
+                    // own signature, the rest of the mapping is still checked
+                    known.push(Fail::new(
+                        SIG_WRONG_TYPE_KIND,
+                        format!("{e:?} is reported as FRAME_ENCODING_ERROR, RFC 9000 §12.4 prescribes PROTOCOL_VIOLATION"),
+                    ));
+                } else {
+                    ensure_eq!(q.kind(), want_kind, "error-kind", "{e:?} maps to");
+                }
                 let want_fty = match &want {
                     RefStep::WrongType(c) | RefStep::Trunc { code: c, .. } | RefStep::Invalid { code: c, .. } => {
                         let ft = FrameType::try_from(VarInt::from_u64(*c).unwrap())
@@ -2289,6 +2305,11 @@ fn main() {
         return;
     }
     let mut check = Check::from_env("C03", "exploration");
+    // the property promises termination ("decoding terminates ... never loops without consuming
+    // input"): a case that burns 30 s of CPU on an input of at most a datagram (typical: microseconds)
+    // is reported as a violation with the input as replay file
+    check.hang_budget(30, true);
+    check.assume("termination is decided by a CPU budget of 30 s per case on the case's own thread (typical case: microseconds)");
     check.rule(
         "case = one byte string fed to an entry point the way the stack does: datagram -> PacketReader for every dcid_len 0..=20 \
          (whole, and behind a forward header when it sniffs as one) + be_endpoint_addr; payload -> FrameReader in Initial, 0-RTT, \
